@@ -34,8 +34,11 @@ def templates():
 
 
 def design_checks(c):
-    for cfg, what in (("MC_Ledger.cfg", "Ledger design without coinbase: conservation, trichotomy, authorisation"),
-                      ("MC_Ledger_cb.cfg", "Ledger design with coinbase")):
+    cfgs = [("MC_Ledger.cfg", "Ledger design without coinbase: conservation, trichotomy, authorisation"),
+            ("MC_Ledger_cb.cfg", "Ledger design with coinbase")]
+    if c.tier == "quick":
+        cfgs = [cfgs[c.seed % 2]]        # one of the two per quick run (they differ only in where the fees go)
+    for cfg, what in cfgs:
         c.require_ok(vlib.tlc(SPEC_DIR, "MC_Ledger", cfg, c.work, timeout=900), what)
 
 
